@@ -21,3 +21,19 @@ Theorem artificial_cost_wrap_refuted :
   asis_probe f21_p f21_q f21_c_ok None = (true, false, false) /\
   emd_certified f21_p f21_q f21_c_ok None 2 false = Some (5, [[0; 1]; [0; 0]]).
 Proof. repeat split; vm_compute; reflexivity. Qed.
+
+(* The open lemma, stated formally (NOT proved): on the inputs of the stated domain with
+   max(C) <= 2^31-2 — where the as-written artificial cost equals the exact one — the flagged run of
+   the line-level model on the graph of emd_hat_impl.hpp ends with the companion flag clear. *)
+Definition artificial_node_unused_statement : Prop :=
+  forall Pc Qc Cc emp, length Pc = length Qc ->
+    (forall x, In x Pc -> 0 <= x) -> (forall x, In x Qc -> 0 <= x) ->
+    (forall r x, In r Cc -> In x r -> 0 <= x) -> max_entry Cc <= 2147483646 ->
+    let r := reduce Pc Qc Cc emp in
+    exists res, min_cost_flow_ll_f (r_bb r) (r_cc r) = Some (res, false).
+
+(* for max(C) <= 2^31-2 the as-written artificial cost is the exact one *)
+Lemma wrap32_small z : 0 <= z <= 2147483646 -> wrap32 (z + 1) = z + 1.
+Proof.
+  intros H. unfold wrap32. rewrite Z.mod_small by lia. lia.
+Qed.
